@@ -1087,7 +1087,10 @@ class ComplexModelBase(ModelBase):
         fti = cls.get_flat_type_info(cls)
 
         retval = TypeInfo()
-        tags = set()
+
+        # classes on the path from the root to the queued member: a class is
+        # expanded wherever it appears, except inside itself.
+        tags = frozenset((cls,))
 
         queue = deque()
         if prot is None:
@@ -1100,6 +1103,7 @@ class ComplexModelBase(ModelBase):
                     (sub_name,),
                     (_is_array(v),),
                     cls,
+                    tags,
                 ))
 
         else:
@@ -1115,12 +1119,11 @@ class ComplexModelBase(ModelBase):
                     (sub_name,),
                     (_is_array(v),),
                     cls,
+                    tags,
                 ))
 
-        tags.add(cls)
-
         while len(queue) > 0:
-            keys, v, prefix, is_array, parent = queue.popleft()
+            keys, v, prefix, is_array, parent, tags = queue.popleft()
             k = keys[-1]
             if issubclass(v, Array) and v.Attributes.max_occurs == 1:
                 v, = v._type_info.values()
@@ -1136,7 +1139,7 @@ class ComplexModelBase(ModelBase):
                 )
 
                 if not (v in tags):
-                    tags.add(v)
+                    tags = tags | frozenset((v,))
                     if prot is None:
                         for k2, v2 in v.get_flat_type_info(v).items():
                             sub_name = k2
@@ -1145,7 +1148,8 @@ class ComplexModelBase(ModelBase):
                                 v2,
                                 prefix + (sub_name,),
                                 is_array + (_is_array(v),),
-                                v
+                                v,
+                                tags,
                             ))
 
                     else:
@@ -1161,6 +1165,7 @@ class ComplexModelBase(ModelBase):
                                 prefix + (sub_name,),
                                 is_array + (_is_array(v),),
                                 v,
+                                tags,
                             ))
 
             else:
